@@ -8,6 +8,7 @@
                                                  capacity), src_fw_raises (the `if capacity < 0: raise` guard)
   photoelectrons.py           simple_conversion -> src_qe_select (argument / characteristics), src_qe_range (the
                                                  `if not 0 <= qe <= 1: raise` guard)
+  photoelectrons.py           conversion_with_qe_map -> src_qe_map_range (the per-pixel range check of the map)
   cdm.py                      cdm             -> src_cdm_fwc_select (argument / characteristics), src_cdm_guard (the
                                                  range checks on volume, beta, capacity, period, as one bool)
 """
@@ -366,6 +367,44 @@ def tr_qe_sources(repo: Path) -> str:
             f"Definition src_qe_range (q : Q) : bool := {rng}.\n")
 
 
+def tr_qe_map(repo: Path) -> str:
+    tree = parse(repo, "pyxel/models/charge_generation/photoelectrons.py")
+    fn = find_func(tree, "conversion_with_qe_map")
+    body = body_no_doc(fn)
+    # `if not np.all(<elementwise test on qe>): raise`, elementwise test = conjunction (&) of comparisons of qe with numbers
+    gs = [st for st in body if isinstance(st, ast.If) and "qe" in {n.id for n in ast.walk(st.test) if isinstance(n, ast.Name)}]
+    if len(gs) != 1:
+        fail(fn, "conversion_with_qe_map: expected one range check of the map")
+    test = _raise_guard(gs[0])
+    if not (isinstance(test, ast.UnaryOp) and isinstance(test.op, ast.Not) and isinstance(test.operand, ast.Call)
+            and ast.unparse(test.operand.func) == "np.all" and len(test.operand.args) == 1 and not test.operand.keywords):
+        fail(test, "range check must be `if not np.all(<test>): raise`")
+
+    def elem(node):
+        if isinstance(node, ast.BinOp) and isinstance(node.op, ast.BitAnd):
+            return f"{elem(node.left)} && {elem(node.right)}"
+        if isinstance(node, ast.Compare):
+            return f"({_pos_guard(node, {'qe': 'q'})})"
+        fail(node, "elementwise range test shape not accepted")
+
+    rng = elem(test.operand.args[0])
+    calls = [n for st in body for n in ast.walk(st) if isinstance(n, ast.Call) and ast.unparse(n.func) == "apply_qe"]
+    if len(calls) != 1 or calls[0].args:
+        fail(fn, "conversion_with_qe_map must call apply_qe once, with keywords")
+    kw = {k.arg: ast.unparse(k.value) for k in calls[0].keywords}
+    if kw != {"array": "detector.photon.array", "qe": "qe", "binomial_sampling": "binomial_sampling"}:
+        fail(calls[0], "apply_qe must receive the photon array, the checked map and the sampling flag")
+    if body.index(gs[0]) > min(i for i, st in enumerate(body) if calls[0] in list(ast.walk(st))):
+        fail(gs[0], "the range check must precede the conversion")
+    for st in body[body.index(gs[0]):]:
+        for n in ast.walk(st):
+            if isinstance(n, (ast.Assign, ast.AugAssign, ast.AnnAssign)):
+                tg = n.targets if isinstance(n, ast.Assign) else [n.target]
+                if any(isinstance(t, ast.Name) and t.id == "qe" for t in tg):
+                    fail(n, "the efficiency map is rebound after the range check")
+    return f"Definition src_qe_map_range (q : Q) : bool := {rng}.\n"
+
+
 def tr_cdm_guard(repo: Path) -> str:
     tree = parse(repo, "pyxel/models/charge_transfer/cdm.py")
     fn = find_func(tree, "cdm")
@@ -409,7 +448,7 @@ def tr_cdm_guard(repo: Path) -> str:
 
 def translate(repo: Path) -> str:
     return (HEADER + PRE + tr_ipc(repo) + tr_collect(repo) + tr_full_well(repo) + tr_qe(repo) + tr_fw_sources(repo)
-            + tr_qe_sources(repo) + tr_cdm_guard(repo))
+            + tr_qe_sources(repo) + tr_qe_map(repo) + tr_cdm_guard(repo))
 
 
 FALLBACK = (HEADER + PRE +
@@ -423,6 +462,7 @@ FALLBACK = (HEADER + PRE +
             "Definition src_fw_raises (c : Q) : bool := (Qltb c 0).\n"
             "Definition src_qe_select (arg char : option Q) : option Q := match arg with None => char | Some a => Some a end.\n"
             "Definition src_qe_range (q : Q) : bool := Qle_bool 0 q && Qle_bool q 1.\n"
+            "Definition src_qe_map_range (q : Q) : bool := (Qle_bool 0 q) && (Qle_bool q 1).\n"
             "Definition src_cdm_fwc_select (arg char : option Q) : option Q := match arg with None => char | Some a => Some a end.\n"
             "Definition src_cdm_guard (vg beta fwc t : Q) : bool := (Qltb 0 vg && Qle_bool vg 1) && (Qle_bool 0 beta && Qle_bool beta 1) "
             "&& (Qltb 0 fwc && Qle_bool fwc 10000000) && (Qle_bool 0 t && Qle_bool t 10).\n")
